@@ -3,6 +3,7 @@
      N <sexpr>          numeric/boolean expression of Arith/Expr.v      -> OK <scalar> | ERR <class> | UNSPEC
      E <dv> <dv>        a == b on data (Arith/Eq.v)                     -> OK <bool> [flags]
      C <dv>             canonical tree of a data value                  -> OK <tree>
+     X <xv> <xv>        a == b on extended values (Arith/EqX.v)         -> OK <bool> | ERR <class>  [norm]
    This file only parses and prints; everything that is decided is decided by extracted code. *)
 open C16_model
 
@@ -118,6 +119,40 @@ let rec dv_of (x : sx) : dv =
       DRec (List.map (function L [A k; v] -> (k, dv_of v) | _ -> failwith "bad field") fields)
   | _ -> failwith "bad data value"
 
+let rec ctr_of (x : sx) : ctr =
+  match x with
+  | A "num" -> CNum | A "str" -> CStr | A "bool" -> CBool | A "dyn" -> CDyn
+  | L [A "arr"; c] -> CArr (ctr_of c)
+  | _ -> failwith "bad contract"
+
+let ctrs_of = function
+  | L (A "c" :: cs) -> List.map ctr_of cs
+  | _ -> failwith "bad contract list"
+
+let rec xv_of (x : sx) : xv =
+  match x with
+  | A "null" -> XNull
+  | A "bot" -> XBot
+  | L [A "b"; A "true"] -> XBool true
+  | L [A "b"; A "false"] -> XBool false
+  | L [A "n"; A p; A q] ->
+      (match z_of_string q with
+       | Zpos d -> XNum { qnum = z_of_string p; qden = d }
+       | _ -> failwith "bad denominator")
+  | L [A "s"; A t] -> XStr t
+  | L [A "s"] -> XStr ""
+  | L [A "e"; A t] -> XEnum t
+  | L [A "v"; A t; a] -> XVariant (t, xv_of a)
+  | L (A "a" :: cs :: items) -> XArr (ctrs_of cs, List.map xv_of items)
+  | L (A "r" :: fields) ->
+      XRec (List.map (function
+        | L [A k; A o; cs; v] ->
+            let opt = (match o with "opt" -> true | "req" -> false | _ -> failwith "bad optional flag") in
+            let v = (match v with A "nodef" -> None | v -> Some (xv_of v)) in
+            (k, ((opt, ctrs_of cs), v))
+        | _ -> failwith "bad field") fields)
+  | _ -> failwith "bad extended value"
+
 let json_str (s : string) : string =
   let b = Buffer.create (String.length s + 2) in
   Buffer.add_char b '"';
@@ -173,6 +208,16 @@ let handle (line : string) : string =
       "OK " ^ (if r then "true" else "false") ^ Buffer.contents flags
   | 'C' -> "OK " ^ show_tree (canon (dv_of (parse_sx line pos)))
   | 'X' ->
+      let a = xv_of (parse_sx line pos) in
+      let b = xv_of (parse_sx line pos) in
+      let r = (match xeq_machine a b with
+        | Ok true -> "OK true" | Ok false -> "OK false" | Err e -> "ERR " ^ err_class e | Unspec -> "UNSPEC") in
+      let flags = (match norm [] a, norm [] b with
+        | Some da, Some db ->
+            if xwf a && xwf b then (if r = (if dv_eqb da db then "OK true" else "OK false") then " norm" else " !NORM") else " !WF"
+        | _, _ -> "") in
+      r ^ flags
+  | 'J' ->
       (match export (dv_of (parse_sx line pos)) with
        | Some t -> "OK " ^ show_tree t
        | None -> "ERR NotExportable")
